@@ -336,8 +336,16 @@ func main() {
 		b, err := ioutil.ReadFile(r.Replay)
 		var doc struct {
 			Witness struct {
-				Params params `json:"params"`
+				Params  params `json:"params"`
+				Variant string `json:"variant"`
+				Regions int    `json:"regions"`
 			} `json:"witness"`
+		}
+		if err == nil && json.Unmarshal(b, &doc) == nil && doc.Witness.Variant != "" && doc.Witness.Regions > 0 {
+			// witness of the gated schedule "configuration update during the recovery scan"
+			gatedConfigDuringScan(r, opts, doc.Witness.Variant, doc.Witness.Regions, 1)
+			r.Distinct("replay")
+			r.Finish()
 		}
 		if err != nil || json.Unmarshal(b, &doc) != nil || doc.Witness.Params.HSeed == 0 {
 			r.Inconclusive("replay file %s has no history parameters", r.Replay)
